@@ -224,6 +224,42 @@ func scenarios() []*sched.Scenario {
 			vrt.Fail("callback-after-unsubscribe|inner", "an inner subscription created within the context was still invoked after the unsubscribe call had returned")
 		}
 	}})
+	// an unsubscribe function called a second time (explicitly and again by a deferred clean-up) is a no-op: whoever
+	// subscribed in between - right behind the subscription that left - keeps getting every update
+	out = append(out, &sched.Scenario{Name: "variable/unsubscribe-twice-keeps-later-subscribers", Run: func() {
+		v := reactive.NewVariable[int]()
+		a, b, c := &varSub{name: "A"}, &varSub{name: "B"}, &varSub{name: "C"}
+		v.OnUpdate(a.cb)
+		ub := v.OnUpdate(b.cb)
+		ub()
+		b.unsubbed = true
+		v.OnUpdate(c.cb)
+		vrt.Par(
+			func() { ub() },
+			func() { v.Set(1); v.Set(2) },
+		)
+		vrt.Quiesce()
+		final := v.Get()
+		vrt.Observe("final", final)
+		a.check(final, true)
+		c.check(final, true)
+	}})
+	out = append(out, &sched.Scenario{Name: "set/only-subscriber-unsubscribes-twice-then-new-subscriber", Run: func() {
+		s := reactive.NewSet[int]()
+		a, b := newSetSub("A"), newSetSub("B")
+		ua := s.OnUpdate(a.cb)
+		ua()
+		ua()
+		a.unsubbed = true
+		vrt.Par(
+			func() { s.OnUpdate(b.cb) },
+			func() { s.Add(1); s.Add(2) },
+		)
+		vrt.Quiesce()
+		final := s.ToSlice()
+		vrt.Observe("final", fmt.Sprint(final))
+		b.check(final)
+	}})
 	out = append(out, &sched.Scenario{Name: "variable/zero-value-trigger+same-value-set", Run: func() {
 		v := reactive.NewVariable[int]()
 		a := &varSub{name: "A"}
